@@ -145,6 +145,7 @@ func vCfgEntry(r *rand.Rand, id, ts, rev int64) *vEntry {
 }
 
 type vGen struct {
+	script []*vEntry // scripted warm-up: registered users (and a services link) before the random phase
 	r      *rand.Rand
 	id     int64
 	ts     int64
@@ -186,6 +187,19 @@ func (g *vGen) next(step int, st map[string]interface{}) *vEntry {
 	v := vViewOf(st)
 	g.tick()
 	cfg := st["cfg"].(map[string]interface{})
+	if step == 1 && r.Intn(5) != 0 {
+		g.script = g.warmup()
+	}
+	if len(g.script) > 0 {
+		e := g.script[0]
+		g.script = g.script[1:]
+		e.Id, e.Ts = g.id, g.ts
+		if e.T == "line" || e.T == "mod" {
+			g.cmid++
+			e.Cmid = g.cmid
+		}
+		return e
+	}
 	// prologue: a configuration and a few sessions
 	if step == 1 || r.Intn(45) == 0 {
 		g.rev++
@@ -206,7 +220,8 @@ func (g *vGen) next(step int, st map[string]interface{}) *vEntry {
 			}
 		}
 	}
-	if len(clients)+len(links) < 3 && r.Intn(2) == 0 || r.Intn(18) == 0 {
+	atLimit := cfg["maxs"].(int64) > 0 && int64(len(v.sess)) >= cfg["maxs"].(int64)
+	if (len(clients)+len(links) < 3 && r.Intn(3) == 0 && !atLimit) || r.Intn(40) == 0 {
 		return &vEntry{T: "create", Id: g.id, Ts: g.ts, Data: fmt.Sprintf("auth%04d-secret", g.id), Sup: true, Conf: true}
 	}
 	all := append(append([]map[string]interface{}{}, clients...), links...)
@@ -214,6 +229,18 @@ func (g *vGen) next(step int, st map[string]interface{}) *vEntry {
 		return &vEntry{T: "create", Id: g.id, Ts: g.ts, Data: fmt.Sprintf("auth%04d-secret", g.id), Sup: true, Conf: true}
 	}
 	actor := all[r.Intn(len(all))]
+	if len(links) > 0 && r.Intn(3) == 0 {
+		actor = links[r.Intn(len(links))]
+	}
+	// prefer getting sessions registered early on
+	if step < 25 {
+		for _, s := range clients {
+			if !s["li"].(bool) && r.Intn(2) == 0 {
+				actor = s
+				break
+			}
+		}
+	}
 	sess := actor["id"].(int64)
 	if r.Intn(60) == 0 {
 		sess = g.id - 1 - int64(r.Intn(3)) // possibly not a session
@@ -540,6 +567,50 @@ func (g *vGen) next(step int, st map[string]interface{}) *vEntry {
 		e.Data = vWildLine(r, anyNick, anyChan)
 	}
 	return e
+}
+
+// warmup returns a scripted registration phase; session ids are the entry ids, which are
+// assigned when the entries are emitted (entry k of the script gets id g.id+k-1... the
+// script therefore refers to sessions by position: Sess is patched below).
+func (g *vGen) warmup() []*vEntry {
+	r := g.r
+	var es []*vEntry
+	g.rev++
+	cfg := vCfgEntry(r, 0, 0, g.rev)
+	for !cfg.CfgOk || len(cfg.Cfg["svc"].([]interface{})) == 0 || len(cfg.Cfg["opers"].([]interface{})) == 0 ||
+		cfg.Cfg["maxs"].(int64) != 0 && r.Intn(3) != 0 {
+		cfg = vCfgEntry(r, 0, 0, g.rev)
+	}
+	es = append(es, cfg)
+	base := g.id // the config entry gets id base; creates get base+1..
+	n := 2 + r.Intn(3)
+	for k := 0; k < n; k++ {
+		es = append(es, &vEntry{T: "create", Data: fmt.Sprintf("auth%04d-secret", base+int64(k)+1), Sup: true, Conf: true})
+	}
+	nicks := []string{"alice", "bob", "carol", "dave", "b[ob]"}
+	r.Shuffle(len(nicks), func(a, b int) { nicks[a], nicks[b] = nicks[b], nicks[a] })
+	withLink := r.Intn(2) == 0
+	for k := 0; k < n; k++ {
+		sess := base + int64(k) + 1
+		if withLink && k == n-1 {
+			es = append(es, &vEntry{T: "line", Sess: sess, Data: "PASS services=spw", Sup: true, Conf: true})
+			es = append(es, &vEntry{T: "line", Sess: sess, Data: "SERVER services.example 1 :Services", Sup: true, Conf: true})
+			for _, p := range vPseudo[:2+r.Intn(3)] {
+				es = append(es, &vEntry{T: "line", Sess: sess, Sup: true, Conf: true,
+					Data: fmt.Sprintf("NICK %s 1 1 %s services.example services.example 0 +o :%s service", p, strings.ToLower(p[:2]), p)})
+			}
+			continue
+		}
+		if r.Intn(6) == 0 {
+			es = append(es, &vEntry{T: "line", Sess: sess, Data: pick(r, []string{"PASS oper=op pw", "PASS secret"}), Sup: true, Conf: true})
+		}
+		es = append(es, &vEntry{T: "line", Sess: sess, Data: "NICK " + nicks[k], Sup: true, Conf: true, Addr: pick(r, []string{"", "a1", "a2"})})
+		es = append(es, &vEntry{T: "line", Sess: sess, Data: fmt.Sprintf("USER u%d 0 * :Real %d", k+1, k+1), Sup: true, Conf: true})
+		if r.Intn(2) == 0 {
+			es = append(es, &vEntry{T: "line", Sess: sess, Data: "JOIN " + pick(r, []string{"#a", "#b", "#a,#b"}), Sup: true, Conf: true})
+		}
+	}
+	return es
 }
 
 var vAllCmds = []string{"NICK", "USER", "PASS", "JOIN", "PART", "KICK", "QUIT", "KILL", "GLINE", "OPER", "MODE", "TOPIC",
